@@ -108,9 +108,11 @@ def build_read(rng, ref, start, cigar, name, force=None):
                 if force and c in force:
                     b = force[c]
                 elif op == 7:
-                    b = rb
+                    # '=' promises a match to the *aligner's* genome, which need not be the RefSeq-derived
+                    # reference aldy compares with: now and then the base differs
+                    b = rb if rng.random() < 0.97 else rng.choice([x for x in BASES if x != rb])
                 elif op == 8:
-                    b = rng.choice([x for x in BASES if x != rb])
+                    b = rng.choice([x for x in BASES if x != rb]) if rng.random() < 0.97 else rb
                 else:
                     b = rb if rng.random() < 0.93 else rng.choice([x for x in BASES if x != rb])
                 seq.append(b)
@@ -134,7 +136,7 @@ def resplit(rng, read, ref):
     seq = read["seq"]
     for op, n in read["cigar"]:
         if op in (0, 7, 8):
-            mode = rng.choice(["split", "typed", "merge"])
+            mode = rng.choice(["split", "typed", "merge", "all_eq"])
             if mode == "typed":
                 run_op, run_n = None, 0
                 for i in range(n):
@@ -146,6 +148,8 @@ def resplit(rng, read, ref):
                             out.append((run_op, run_n))
                         run_op, run_n = o, 1
                 out.append((run_op, run_n))
+            elif mode == "all_eq":
+                out.append((7, n))  # the whole run spelled '=' whatever the bases are
             elif mode == "split" and n > 1:
                 k = rng.randint(1, n - 1)
                 out.append((0, k))
